@@ -1083,7 +1083,7 @@ where
             let mut stream = me.store.resolve(pending.key);
             tracing::trace!("poll_pending_open; stream = {:?}", stream.is_pending_open);
             if stream.is_pending_open {
-                stream.wait_send(cx);
+                stream.wait_open(cx);
                 return Poll::Pending;
             }
         }
